@@ -195,6 +195,8 @@ func Run(c Cmd) (*Death, error) {
 	cmd := exec.Command(os.Args[0])
 	cmd.Env = append(os.Environ(), EnvChild+"="+c.Spec, "GOTRACEBACK=single")
 	cmd.Env = append(cmd.Env, c.Env...)
+	// a child must not outlive a killed supervisor
+	cmd.SysProcAttr = &syscall.SysProcAttr{Pdeathsig: syscall.SIGKILL}
 	tb := &tailBuf{}
 	cmd.Stderr = tb
 	cmd.Stdout = tb
